@@ -20,26 +20,26 @@ func init() {
 //
 // Anything else that the analysis cannot prove is reported.
 var boundsExemptUnits = map[string]string{
-	"server.(*LegacyAOFReader).ReadCommand": "migration reader for the pre-1.0 log format: reads a local file once at start-up (migrateAOF), not client input; its offsets are sums of three variables, outside the zone domain",
-	"server.(*Hook).proc":                   "keys/vals/ttls are parallel slices this function fills itself from the queue database (appended pairwise in one callback), never client bytes",
-	"server.(*Hook).proc$3":                 "re-insert callback of Hook.proc over the same parallel slices",
-	"server.(*Server).aofshrink":            "keys is the batch of collection names this function collected itself; it is indexed only while len(keys) > 0 (loop structure across function literals)",
-	"server.(*Server).aofshrink$3":          "object callback of aofshrink, same batch of names",
-	"server.sortMsgs$1":                     "comparison callback of sort.SliceStable: i and j are valid indexes by the library contract",
-	"server.newGroupItem":                   "writes into a buffer it allocated with the exact total length (sum of four lengths: outside the zone domain)",
-	"server.(*pubsub).register":             "hubs is a two-element array indexed by the internal subscription kind (pubsubChannel=0, pubsubPattern=1)",
-	"server.(*pubsub).unregister":           "hubs is a two-element array indexed by the internal subscription kind",
-	"server.Serve$1":                        "debug stack dump inside `if false`",
+	"server.(*LegacyAOFReader).ReadCommand":            "migration reader for the pre-1.0 log format: reads a local file once at start-up (migrateAOF), not client input; its offsets are sums of three variables, outside the zone domain",
+	"server.(*Hook).proc":                              "keys/vals/ttls are parallel slices this function fills itself from the queue database (appended pairwise in one callback), never client bytes",
+	"server.(*Hook).proc$cb:Update#2":                  "re-insert callback of Hook.proc over the same parallel slices",
+	"server.(*Server).aofshrink":                       "keys is the batch of collection names this function collected itself; it is indexed only while len(keys) > 0 (loop structure across function literals)",
+	"server.(*Server).aofshrink$cb:ScanGreaterOrEqual": "object callback of aofshrink, same batch of names",
+	"server.sortMsgs$cb:SliceStable":                   "comparison callback of sort.SliceStable: i and j are valid indexes by the library contract",
+	"server.newGroupItem":                              "writes into a buffer it allocated with the exact total length (sum of four lengths: outside the zone domain)",
+	"server.(*pubsub).register":                        "hubs is a two-element array indexed by the internal subscription kind (pubsubChannel=0, pubsubPattern=1)",
+	"server.(*pubsub).unregister":                      "hubs is a two-element array indexed by the internal subscription kind",
+	"server.Serve$defer":                               "debug stack dump inside `if false`",
 }
 
 var boundsExempt = map[string]string{
 	"server.(*Server).liveSubscription→m[kind]":             "two-element array indexed by the internal subscription kind constant",
 	"server.(*Server).liveSubscription→m[kind]#2":           "two-element array indexed by the internal subscription kind constant",
-	"server.(*Server).loadAOF$1→suf[0]":                     "suf is a five-element literal that the loop shortens only while len(suf) > 1",
-	"server.(*lStatePool).New$2→args[0]":                    "tile38.call with no arguments panics here, but the closure only runs inside gopher-lua's PCall, which recovers Go panics into a script error (the script fails, the server does not)",
-	"server.(*lStatePool).New$2→args[1:]":                   "same closure: evaluated after args[0]",
-	"server.(*lStatePool).New$3→args[0]":                    "tile38.pcall, as for tile38.call: runs under PCall's recover",
-	"server.(*lStatePool).New$3→args[1:]":                   "same closure: evaluated after args[0]",
+	"server.(*Server).loadAOF$defer→suf[0]":                 "suf is a five-element literal that the loop shortens only while len(suf) > 1",
+	"server.(*lStatePool).New$call→args[0]":                 "tile38.call with no arguments panics here, but the closure only runs inside gopher-lua's PCall, which recovers Go panics into a script error (the script fails, the server does not)",
+	"server.(*lStatePool).New$call→args[1:]":                "same closure: evaluated after args[0]",
+	"server.(*lStatePool).New$pcall→args[0]":                "tile38.pcall, as for tile38.call: runs under PCall's recover",
+	"server.(*lStatePool).New$pcall→args[1:]":               "same closure: evaluated after args[0]",
 	"server.baseToNumber→str[2:]":                           "guarded by HasPrefix(ToLower(str), \"0x\"): only ASCII '0','x','X' lower-case to \"0x\", so str has these two bytes; also runs under PCall's recover",
 	"server.extendRoamMessage→baseMsg[:len(baseMsg) - 1]":   "baseMsg is a fence message assembled by makemsg (always ends in '}'), not client bytes",
 	"server.fenceMatch→res[1:]#3":                           "res is the non-empty output of scanWriter.writeObject for one object (checked by sw.wr.Len() != 0 above), not client bytes",
@@ -231,7 +231,7 @@ func boundsPass(c *Ctx, report bool) {
 				bodies = append(bodies, struct {
 					b    *ast.BlockStmt
 					name string
-				}{l.Body, fmt.Sprintf("%s$%d", funcName(fn.Obj), i+1)})
+				}{l.Body, funcName(fn.Obj) + "$" + litRoleNames(c, info, lits)[i]})
 			}
 			for _, bd := range bodies {
 				u := &bgUnit{c: c, fn: fn, info: info, body: bd.b, name: bd.name, vars: map[string]int{}, roots: map[int]types.Object{}, isLen: map[int]bool{}, noTrk: noTrk}
@@ -501,4 +501,63 @@ func inheritedUnitExemption(c *Ctx, fn *FuncInfo) (string, string) {
 		}
 	}
 	return "", ""
+}
+
+// litRoleNames names the function literals of one declared function by their role rather than by their
+// ordinal (an ordinal shifts whenever a maintainer adds a closure in front): the variable a literal is bound
+// to, the function it is passed to, "go"/"defer"/"call" for a literal invoked on the spot, the key of a
+// composite-literal element. Literals with the same role are numbered in source order (#2, #3, …).
+func litRoleNames(c *Ctx, info *types.Info, lits []*ast.FuncLit) []string {
+	names := make([]string, len(lits))
+	count := map[string]int{}
+	for i, l := range lits {
+		role := "lit"
+		var par ast.Node = c.Parent(l)
+		for {
+			if pe, ok := par.(*ast.ParenExpr); ok {
+				par = c.Parent(pe)
+				continue
+			}
+			break
+		}
+		switch x := par.(type) {
+		case *ast.AssignStmt:
+			for j, r := range x.Rhs {
+				if ast.Unparen(r) == ast.Expr(l) && j < len(x.Lhs) {
+					role = types.ExprString(x.Lhs[j])
+				}
+			}
+		case *ast.ValueSpec:
+			for j, r := range x.Values {
+				if ast.Unparen(r) == ast.Expr(l) && j < len(x.Names) {
+					role = x.Names[j].Name
+				}
+			}
+		case *ast.KeyValueExpr:
+			role = types.ExprString(x.Key)
+		case *ast.ReturnStmt:
+			role = "return"
+		case *ast.CallExpr:
+			if ast.Unparen(x.Fun) == ast.Expr(l) {
+				switch c.Parent(x).(type) {
+				case *ast.GoStmt:
+					role = "go"
+				case *ast.DeferStmt:
+					role = "defer"
+				default:
+					role = "invoke"
+				}
+			} else if f := callee(info, x); f != nil {
+				role = "cb:" + f.Name()
+			} else {
+				role = "cb:" + types.ExprString(x.Fun)
+			}
+		}
+		count[role]++
+		if count[role] > 1 {
+			role = fmt.Sprintf("%s#%d", role, count[role])
+		}
+		names[i] = role
+	}
+	return names
 }
